@@ -215,6 +215,7 @@ def splice_and_verify(canary=False):
     linemap = json.load(open(os.path.join(meta, "linemap.json")))
     linemap.update(json.load(open(os.path.join(meta2, "linemap.json"))))
     fnindex = json.load(open(os.path.join(meta, "fnindex.json"))) + json.load(open(os.path.join(meta2, "fnindex.json")))
+    fnindex += index_spec_fns(os.path.join(VERIF, "spec"))
     report = json.load(open(os.path.join(meta, "report.json")))
     report2 = json.load(open(os.path.join(meta2, "report.json")))
     report["contracts"] += report2["contracts"]
@@ -232,6 +233,28 @@ def splice_and_verify(canary=False):
     if not res.get("tool_error"):
         cache_put(key, res)
     return res
+
+
+def index_spec_fns(spec_dir):
+    """function line ranges of the spec-library modules (copied verbatim, so output line == source line)"""
+    out = []
+    pat = re.compile(r"^\s*(?:pub\s+)?(?:(?:open|closed|uninterp|broadcast)\s+)*(?:(?:proof|spec|exec)\s+)?(?:axiom\s+)?fn\s+(\w+)")
+    for f in sorted(glob.glob(os.path.join(spec_dir, "*.rs"))):
+        mod = os.path.splitext(os.path.basename(f))[0]
+        lines = open(f).read().split("\n")
+        starts = []
+        for i, l in enumerate(lines, 1):
+            m = pat.match(l)
+            if m:
+                starts.append((i, m.group(1)))
+        for k, (ln, name) in enumerate(starts):
+            end = (starts[k + 1][0] - 1) if k + 1 < len(starts) else len(lines)
+            # attribute doc comments above the next fn to that fn, not this one
+            while end > ln and lines[end - 1].strip().startswith(("///", "//", "#[")) or (end > ln and lines[end - 1].strip() == ""):
+                end -= 1
+            out.append({"fn": "%s::%s" % (mod, name), "file": os.path.basename(f), "out_start": ln, "out_end": end, "repo_start": ln, "repo_end": end,
+                        "has_body": True, "loops": 0, "contracted": False, "spec_lib": True})
+    return out
 
 
 ASSUME_PAT = re.compile(r"\b(assume\s*\(|admit\s*\(|external_body|assume_specification|axiom\s+fn|#\[verifier::external\]|external_type_specification|uninterp\s+spec)")
@@ -393,7 +416,25 @@ def parse_verus(rc, out, err, linemap, fnindex, sc):
 # cones, findings
 # --------------------------------------------------------------------------------------------
 def load_cones():
-    return tomllib.load(open(os.path.join(VERIF, "contracts/cones.toml"), "rb"))
+    raw = tomllib.load(open(os.path.join(VERIF, "contracts/cones.toml"), "rb"))
+    groups = raw.get("groups", {})
+
+    def expand(lst):
+        out = []
+        for x in lst:
+            if x.startswith("@"):
+                if x[1:] not in groups:
+                    raise ToolProblem("cones.toml: unknown group " + x)
+                out += expand(groups[x[1:]])
+            else:
+                out.append(x)
+        return out
+    cones = {}
+    for k, v in raw.items():
+        if k == "groups":
+            continue
+        cones[k] = {kk: (expand(vv) if isinstance(vv, list) else vv) for kk, vv in v.items()}
+    return cones
 
 
 def load_findings():
@@ -526,7 +567,8 @@ def decide(pid, tier, seed):
         for cf in list(cone_fns) + lemma_fns:
             if my_fn_norm(cf) == n or (cf.endswith("*") and n.startswith(cf[:-1])):
                 fn_times[n] = info
-    missing = [cf for cf in cone_fns if not any(my_fn_norm(cf) == norm_fn(v) for v in funcs) and contracts.get(cf, {}).get("attrs") == []]
+    has_body = {fi["fn"]: fi.get("has_body") for fi in res["fnindex"]}
+    missing = [cf for cf in cone_fns if has_body.get(cf) and not any(my_fn_norm(cf) == norm_fn(v) for v in funcs) and contracts.get(cf, {}).get("attrs") == []]
     failed = [ob for ob in res["failed"] if in_cone(cone, pid, ob)]
 
     # ---- expected-failing obligations (mechanism B) and witnesses of recorded findings
